@@ -43,6 +43,11 @@ def gen(rng, nexec):
             dims[3] = (mw, mh)
             if mfmt != 2 and rng.random() < 0.7:
                 out.append("A 3 1")
+            if e % 4 in (1, 2):       # a mask (or source) clip in force from the start: later requests differ in offsets
+                sh0 = rng.choice(shapes[:4])
+                out.append("r init 1 %d %s" % (len(sh0), " ".join(str(c) for b in sh0 for c in b)))
+                out.append("K %d 1" % (3 if e % 4 == 1 else 2))
+                out.append("S %d 1" % (3 if e % 4 == 1 else 2))
         kinds = ["init", "init", "algebra", "translate", "clipd", "clips", "srcclip", "comp", "comp", "comp"]
         if rich:
             kinds += ["clipm", "mclip", "repeat", "repeat", "shift", "shift", "ca", "ref", "unref", "fill", "fill",
